@@ -10,6 +10,7 @@ RULE = ("structured transactions (0..4 inputs, 0..3 outputs, scripts from a gram
         "stream: pushes of 2047/2048/2049 bytes (ciborium's 4096-byte scratch buffer), conditional nesting on both sides of the decoder "
         "guards (JSON 61/62, CBOR 125/126/127, single input 126/127/128) with empty / opcode / push innermost bodies, u32/u64 extremes; "
         "value-dependent stream: one-byte pushes of every value 0x00..0xff (direct, PUSHDATA1, inside conditionals, as Coinbase bits), two-byte pushes with all-digit hex, previous-output ids with leading/trailing zero bytes, empty vs missing optional fields, PUSHDATA1/2 at the top of their length fields; at the data-model level every look-alike string (ASM short forms 0..17, decimals, OP_FALSE/OP_TRUE, other spellings and lower-case / prefix-less forms of every opcode name) in every position where a name or a hex text is read; "
+        "audit stream: every ScriptBit variant (all push forms, all four conditional codes, with / without else) in every position (script_sig, extended locking script, output script, pass, fail) through JSON and CBOR, whole transaction and lone TxIn; version / vout / sequence / locktime each separately at 0, 2^31-1, 2^31, 2^32-1; satoshis None vs Some(0) vs top-bit values; TxOut JSON; transactions whose sighash cache was filled before serialising (no leak, clone keeps it, decoded value starts empty - hook verif_hash_cache), and the same values rebuilt through new/set_*/add_inputs/add_input/add_outputs/add_output/set_input/set_output; to/from_compact_hex against the byte forms; "
         "scripts the byte parser cannot produce (Push of 0 and of more than 75 bytes, PushData with any opcode, Coinbase bits anywhere) "
         "through bits.*_roundtrip; malformed documents at the data-model level through tx.de_json / tx.de_cbor / txin.de_cbor: every "
         "field dropped / duplicated / retyped / out of range, unknown fields (deep, long-named), structs as arrays, every alternative "
@@ -409,6 +410,61 @@ def value_dependent(A, both, tier):
         both(w, "-"); A("txin.cbor_roundtrip", w, "-", 0); A("tx.to_cbor", w, "-")
 
 
+
+def audit_cases(A, both, tier, rng):
+    """entry points, carried state, field extremes, every ScriptBit variant in every position (audit classes 1/3/4/6)"""
+    ident = "l:21:32"
+    p2pkh = "76a914" + "22" * 20 + "88ac"
+    # -- every ScriptBit variant x every position x JSON/CBOR x whole tx / lone TxIn (wire-parsable variants)
+    variants = ["76", "00", "020102", "4c020102", "4d02000102", "4e020000000102", "635168", "646751" + "68", "65" + "67" + "68", "6651675268"]
+    for v in variants:
+        for pos in ("sig", "lock", "out", "pass", "fail"):
+            body = v if pos in ("sig", "lock", "out") else ("63" + v + "68" if pos == "pass" else "6367" + v + "68")
+            sig = body if pos in ("sig", "pass", "fail") else ""
+            w = tx_wire(1, [(ident, 0, sig, 0)], [(1, body if pos == "out" else "")], 0)
+            e = "n." + body if pos == "lock" else ("n." + body if pos in ("pass", "fail") else "-")
+            both(w, e); A("txin.cbor_roundtrip", w, e, 0)
+            if pos in ("sig", "lock"):
+                A("txin.json", w, e, 0); A("txin.to_cbor", w, e, 0)
+            if pos == "out":
+                A("txout.json", w, e, 0)
+    # -- the same for the variants the parser cannot produce, in top / pass / fail position, all If codes
+    bvars = ["oOP_DUP", "p", "p0102", "p" + "ab" * 76, "dOP_PUSHDATA1x0102", "dOP_PUSHDATA2x", "dOP_PUSHDATA4x01", "dOP_DUPx01", "c0102", "c",
+             "iOP_IF,oOP_1,z", "iOP_NOTIF,e,oOP_1,z", "iOP_VERIF,p01,e,p02,z", "iOP_VERNOTIF,z"]
+    for v in bvars:
+        for code in ("OP_IF", "OP_NOTIF", "OP_VERIF", "OP_VERNOTIF"):
+            forms = [v] if code == "OP_IF" else []
+            forms += ["i%s,%s,z" % (code, v), "i%s,e,%s,z" % (code, v), "i%s,%s,e,%s,z" % (code, v, v)]
+            for t in forms:
+                A("bits.json_roundtrip", t); A("bits.cbor_roundtrip", t); A("bits.txin_cbor_roundtrip", t)
+    # -- u32 fields: 0, top bit set, all ones - in every field separately, whole tx and lone input, texts and bytes
+    for x in (0, 1, 0x7fffffff, 0x80000000, 0x80000001, 0xfffffffe, 0xffffffff):
+        for which in range(4):
+            f = [5, 5, 5, 5]; f[which] = x
+            w = tx_wire(f[0], [(ident, f[1], "51", f[2])], [(1, "51")], f[3])
+            both(w, "-"); A("txin.cbor_roundtrip", w, "-", 0)
+        w = tx_wire(x, [(ident, x, "51", x)], [(1, "51")], x)
+        A("tx.to_json", w, "-"); A("tx.to_cbor", w, "-"); A("txin.json", w, "-", 0); A("txin.to_cbor", w, "-", 0)
+    # -- satoshis / output values: None vs Some(0), top bit set, all ones; TxOut JSON
+    for v in VALUES:
+        w = tx_wire(1, [(ident, 0, "51", 0)], [(v, "51"), (0, "")], 0)
+        for e in ("-", "%d.n" % v, "%d." % v):
+            A("txin.cbor_roundtrip", w, e, 0); A("txin.json", w, e, 0); A("txin.to_cbor", w, e, 0)
+        A("txout.json", w, "-", 0); A("txout.json", w, "-", 1)
+    # -- carried state: serialise after sighash calls filled the cache; clones; decoded transactions start empty;
+    #    the same values rebuilt through the construction / mutation API
+    plain = tx_wire(1, [("l:1:32", 0, "483045" + "33" * 70 + "2103" + "44" * 32, 0xffffffff), ("l:2:32", 1, "", 0xfffffffe)], [(546, p2pkh), (0, "6a0568656c6c6f")], 0)
+    for w, e in [(plain, "-"), (plain, "1000." + p2pkh + ",18446744073709551615."), (plain, "0.n,n."), (tx_wire(2, [], [], 0), "-"),
+                 (tx_wire(2, [], [(5, "51")], 9), "-"), (tx_wire(2, [(ident, 0, "", 0)], [], 0), "n.n"), (GENESIS, "-"),
+                 (tx_wire(1, [(ident, 0, "r:63:62+r:68:62", 0)], [], 0), "-"), (tx_wire(1, [(ident, 0, "r:63:127+r:68:127", 0)], [], 0), "-")]:
+        A("tx.cached_roundtrip", w, e); A("tx.built_json_roundtrip", w, e); A("tx.built_cbor_roundtrip", w, e)
+    for t in ("-", "p10", "oOP_1,p,dOP_PUSHDATA1x00", "iOP_IF,p01,e,p02,z", "c00"):
+        A("bits.cached_roundtrip", t)
+    for k in range(12 if tier == "quick" else 300):
+        w, e, nin = rand_tx(rng, coinbase=(k % 6 == 5))
+        A("tx.cached_roundtrip", w, e); A("tx.built_json_roundtrip", w, e); A("tx.built_cbor_roundtrip", w, e)
+
+
 def generate(rng, tier):
     quick = tier == "quick"
     cases = []
@@ -419,7 +475,7 @@ def generate(rng, tier):
 
     def full(w, e, nin):
         both(w, e)
-        A("tx.to_json", w, e); A("tx.to_cbor", w, e)
+        A("tx.to_json", w, e); A("tx.to_cbor", w, e); A("txout.json", w, e, 0)
         for k in range(nin):
             A("txin.cbor_roundtrip", w, e, k); A("txin.json", w, e, k); A("txin.to_cbor", w, e, k)
 
@@ -493,6 +549,8 @@ def generate(rng, tier):
                 A("tx.json_trailing", w, e, x)
             for x in ("00", "ff", "a0", "f6"):
                 A("tx.cbor_trailing", w, e, x)
+    # ---- audit: entry points, carried state, field extremes, variant x position
+    audit_cases(A, both, tier, rng)
     # invalid wire bytes / invalid locking script bytes: the case is refused before any encoding
     both("00", "-"); both(plain, "1.ff"); both(plain, "1.4c05")
     # ---- scripts the parser cannot produce
